@@ -74,7 +74,7 @@ def generate(tier, rng, around=None):
     if tier == 'widen':
         cases += list(around or [])
     progs = life.base_programs()
-    names = list(progs) if tier != 'quick' else ['sync3', 'async', 'wait', 'output', 'raise', 'killcmd', 'ext', 'callsoon']
+    names = list(progs) if tier != 'quick' else ['sync3', 'async', 'wait', 'output', 'raise', 'unsucc', 'killcmd', 'ext', 'callsoon']
     for name in names:
         prog = progs[name]
         extra = {'callbacks': CALLBACKS}
